@@ -152,12 +152,112 @@ def r1_independent(R) -> None:
                         where=g_.where(m))
         if not users:
             R.ok(fq, f'memoised ({text(cached[0])[:30]}); no caller changes the result in place')
+    # a memoised function whose mutable result a public function hands out as it is: every caller gets the one cached
+    # object, and whatever any of them does to it is what the same statement text "parses to" from then on
+    wrapped = {}
+    for st in R.repo.module(P).tree.body:
+        if isinstance(st, ast.Assign) and len(st.targets) == 1 and isinstance(st.targets[0], ast.Name) and isinstance(st.value, ast.Call) \
+                and len(st.value.args) == 1 and isinstance(st.value.args[0], ast.Name) \
+                and dotted(st.value.func.func if isinstance(st.value.func, ast.Call) else st.value.func) in CACHES:
+            wrapped[st.targets[0].id] = st.value.args[0].id
+    for fi in R.repo.functions.values():
+        if fi.qualname.startswith(P + '.') and fi.qualname.count('.') == P.count('.') + 1 and \
+                any(dotted(d.func if isinstance(d, ast.Call) else d) in CACHES for d in fi.node.decorator_list):
+            wrapped[fi.name] = fi.name
+
+    def mutable_result(fname: str) -> bool:
+        try:
+            fn_ = R.repo.func(f'{P}.{fname}').node
+        except Exception:
+            return False
+        rets = [x.value for x in iter_own_nodes(fn_) if isinstance(x, ast.Return) and x.value is not None]
+        return bool(rets) and all(isinstance(v, (ast.List, ast.ListComp, ast.Dict, ast.DictComp, ast.Set, ast.SetComp)) or is_call(v, 'list') or is_call(v, 'dict') or is_call(v, 'set')
+                                  for v in rets)
+
+    for cname, fname in sorted(wrapped.items()):
+        if not mutable_result(fname):
+            continue
+        for gi in R.repo.functions.values():
+            if not gi.qualname.startswith(P + '.') or gi.name.startswith('_') or gi.qualname.count('.') != P.count('.') + 1:
+                continue
+            g_ = None
+            for x in iter_own_nodes(gi.node):
+                if isinstance(x, ast.Return) and x.value is not None:
+                    v = x.value
+                    if isinstance(v, ast.Name):
+                        g_ = g_ or Fn(R, gi.qualname)
+                        rn = [n_ for n_ in g_.cfg.nodes if n_.ast is x]
+                        vals = g_.lf.values_reaching(rn[0].id, v.id) if rn else []
+                        if vals and all(dv is not None and is_call(dv, cname) for (_s, dv) in vals) and not g_.mutated_in_place(v.id):
+                            v = vals[0][1]
+                    if is_call(v, cname):
+                        R.violation(gi.qualname, f'memoised-result-handed-out:{cname}',
+                                    f'`{text(x)[:70]}` returns the object held in the cache of `{cname}` (a list built once per distinct text): every caller of {gi.name}() gets the same '
+                                    f'mutable object, so an in-place change by one caller (`+=`, sort, append) changes what the same statement parses to afterwards - copy it (`list(...)`)',
+                                    where=f'{gi.module.relpath}:{x.lineno}')
     # the merge is a left fold in statement order (C03.R6 owns the detail)
     from rules import c03
     c03.r6_first_appearance(R)
 
 
+def _brackets_counted_on_stripped_text(R) -> None:
+    """Wherever the splitter counts round brackets (a loop over the characters comparing with '(' / ')', or `.count('(')`), the
+    text counted has been through strip_comments: a bracket inside a comment must not decide where a statement ends."""
+    esc = Escape(R.repo, P, fsic_hierarchy(R.repo))
+    reach = {q_ for q_ in esc.reachable_functions(f'{P}.split_equations_iter') if q_.startswith(P + '.')}
+    # generators consumed by name (`for block in group_lines(model)`) are on the call graph already
+    n_sites = 0
+    for q_ in sorted(reach):
+        fi = R.repo.func(q_)
+        g = None
+        for n in iter_own_nodes(fi.node):
+            counted = None
+            if isinstance(n, ast.For) and isinstance(n.target, ast.Name) and isinstance(n.iter, ast.Name):
+                cmp_ = [x for x in ast.walk(n) if isinstance(x, ast.Compare) and len(x.ops) == 1 and isinstance(x.ops[0], ast.Eq) and text(x.left) == n.target.id
+                        and (is_const(x.comparators[0], '(') or is_const(x.comparators[0], ')'))]
+                if cmp_:
+                    counted = n.iter
+            elif method_call(n, 'count') and n.args and (is_const(n.args[0], '(') or is_const(n.args[0], ')')) and isinstance(n.func.value, ast.Name):
+                counted = n.func.value
+            if counted is None:
+                continue
+            n_sites += 1
+            g = g or Fn(R, q_)
+            node = [m for m in g.cfg.nodes if m.ast is not None and (m.ast is n or (m.kind in ('stmt', 'test') and any(x is n for x in ast.walk(m.ast))))]
+            if not node:
+                raise Unknown(f'{q_}: the bracket count of `{counted.id}` was not located in the flow graph')
+            verdicts = []
+            for (s_, dv) in g.lf.values_reaching(node[0].id, counted.id):
+                src = g.cfg.nodes[s_] if s_ != PARAM else None
+                if src is not None and src.kind == 'for':
+                    it = src.ast.iter
+                    if is_call(it, 'enumerate') and it.args:
+                        it = it.args[0]
+                    if is_call(it, 'map') and len(it.args) == 2 and text(it.args[0]) == 'strip_comments':
+                        verdicts.append('stripped')
+                    elif method_call(it, 'splitlines') and isinstance(it.func.value, ast.Name) and it.func.value.id in fi.params() \
+                            and all(s2 == PARAM for (s2, _v) in g.lf.values_reaching(src.id, it.func.value.id)):
+                        verdicts.append('raw')
+                    else:
+                        verdicts.append('?')
+                elif dv is not None and is_call(dv, 'strip_comments'):
+                    verdicts.append('stripped')
+                else:
+                    verdicts.append('?')
+            where = f'{fi.module.relpath}:{n.lineno}'
+            if verdicts and all(v == 'stripped' for v in verdicts):
+                R.check(True, q_, f'brackets-counted-on-stripped:{counted.id}', 'round brackets are counted on comment-free text', '', where=where)
+            elif 'raw' in verdicts:
+                R.violation(q_, f'brackets-counted-on-raw:{counted.id}',
+                            f'round brackets are counted on `{counted.id}`, a raw line of the script (comment included): a `(` or `)` inside a comment changes where the statement ends '
+                            f'(`Y = X  # (note` swallows the following lines) - inserting a comment changes the parse', where=where)
+            else:
+                raise Unknown(f'{q_}: whether `{counted.id}` (whose round brackets are counted) is comment-free was not decided')
+    R.expect(P, n_sites, 1, 'places where the splitter counts round brackets')
+
+
 def r2_comments_blanks(R) -> None:
+    _brackets_counted_on_stripped_text(R)
     q = f'{P}.split_equations_iter'
     f = Fn(R, q)
     loops = [n for n in f.cfg.nodes if n.kind == 'for' and not n.loops and 'splitlines' in text(n.ast.iter)]
